@@ -112,6 +112,7 @@ type Obligation struct {
 	Assume []string
 	Goal   string
 	Cases  []OblCase // further paths reaching the same named obligation
+	Raw    string    // complete SMT-LIB text (engine lemmas)
 	Func   string
 	Expect string // "unsat" normally; "sat" for vacuity probes
 	Info   string
@@ -146,6 +147,8 @@ type Fx struct {
 	errGlobals []string
 	oblSeen  map[string]int
 	inQuant  int
+	siteOrd  map[ast.Node]int
+	opaqueRet map[string]Val
 	defs     map[string]string // shared sub-terms: constant -> defining term
 }
 
